@@ -21,8 +21,12 @@ def run(ctx):
                 "gen": [("time", mem, dict(family=("lease",), horizon=20, maxep=2, maxins=1, pick="insertion", ttls=(5,), ticks=(5, 10), delays=(0, 5)), 2)],
                 "drv": [("time", "time", 150, 70, dict(churn_every=60))]}
     else:
-        plan = {"mc": [("time_mem", mem, PROPS, dict(family=("lease", "deqvar"), horizon=30, maxep=2, maxins=2, ticks=(1, 5, 10), delays=(0, 7), ttls=(5, 10), timeout=3000)),
-                       ("time_sql", sql, PROPS, dict(family=("lease", "deqvar"), horizon=30, maxep=2, maxins=2, ticks=(1, 5, 10), delays=(0, 7), ttls=(5, 10), timeout=3000))],
+        # measured (8 workers): coarse grid 276k distinct states / 63 s, fine grid (1-tick steps, one insertion) 156k / 31 s;
+        # the first plan (1-tick steps AND two insertions) did not finish in 50 min
+        coarse = dict(family=("lease", "deqvar"), horizon=30, maxep=2, maxins=2, ticks=(5, 10), delays=(0, 5), ttls=(5, 10), timeout=1500)
+        fine = dict(family=("lease", "deqvar"), horizon=30, maxep=2, maxins=1, ticks=(1, 5, 10), delays=(0, 7), ttls=(5, 10), timeout=1500)
+        plan = {"mc": [("time_mem", mem, PROPS, coarse), ("time_mem_fine", mem, PROPS, fine),
+                       ("time_sql", sql, PROPS, coarse), ("time_sql_fine", sql, PROPS, fine)],
                 "gen": [("time", mem, dict(family=("lease", "deqvar"), horizon=30, maxep=2, maxins=2, pick="insertion", ttls=(5, 10), ticks=(5, 10), delays=(0, 5)), 1),
                         ("time_sql", sql, dict(family=("lease", "deqvar"), horizon=30, maxep=2, maxins=1, pick="nextrun", ttls=(5,), ticks=(1, 9, 10), delays=(0, 5)), 1)],
                 "drv": [("time", "time", 4000, 90, dict(churn_every=100))]}
